@@ -14,7 +14,7 @@ def entry_harness(chk, d, want=('E', 'R')):
     ok, log = V.cc_harness(os.path.join(V.HARNESS, 'entry.c'), h, flags=list(V.RELEASE) + ['-DVERIF_STATIC_C="%s/src/static.c"' % V.REPO])
     if not ok:
         chk.broken_tie('entry harness does not compile against the current tree', log[-1500:]); return None
-    rc, out, err = V.run([h, str(chk.seed), '1' if chk.tier == 'thorough' else '0'], timeout=1800)
+    rc, out, err = V.run([h, str(chk.seed), '1' if chk.tier == 'thorough' else '0'], timeout=(1800 if chk.tier == "thorough" else 400))
     if rc != 0 or 'DONE' not in out:
         last = [l for l in out.splitlines() if l][-1:] or ['']
         chk.violation('%s/entry-crash' % chk.pid, 'entry-point harness crashed (exit %d) after: %s %s' % (rc, last[0], err[-200:].replace('\n', ' ')),
